@@ -1,4 +1,17 @@
-(* InvFail.v — property C05: a failed DeliverTx has no effect. *)
+(* InvFail.v — property C05: a failed DeliverTx has no effect.
+   Main results:
+     deliver_eq                    deliver written with named pieces (pre, validated, finish, ...)
+     deliver_ok_validated          success implies both common validations passed (+ corollaries
+                                   deliver_ok_sigok / _price / _nonce / _funds / _addrs / _sender)
+     deliver_fail_no_effect        Err  → same_obs ∧ same_ctl, under five named hypotheses
+     deliver_fail_no_effect_wf     the same from tx_wf, payload_wf, params_ok, ranges_ok, reward_headroom
+     deliver_panic_no_effect       Panic → same_obs ∧ same_ctl, no hypotheses
+     deliver_fail_no_effect_refuted_{price,headroom,balance,amount,gas}
+                                   each hypothesis dropped in turn: concrete counterexamples
+   The structure of the argument: every validation precedes every write; once validation has
+   passed, exeStaking / exeUnstaking cannot fail (so the limiter change made by CheckLimit is
+   never followed by an error) and the fee debit of postRunTrx cannot fail (balance ≥ fee +
+   amount was checked and the arithmetic does not wrap under the hypotheses). *)
 From Rigo Require Import Base.
 From stdpp Require Import gmap sorting.
 From Rigo Require Import Spec SpecProps.
@@ -239,3 +252,628 @@ Qed.
 
 Corollary deliver_ok_addrs s t s' g : deliver s t = (s', Ok g) → t_from_ok t = true ∧ t_to_ok t = true.
 Proof. intros H. apply deliver_ok_validated in H as [H0 _]. apply cv0_none in H0. tauto. Qed.
+
+(* ------------------------------------------------------------------ transaction types *)
+Ltac unfold_ty :=
+  unfold TRX_TRANSFER, TRX_STAKING, TRX_UNSTAKING, TRX_PROPOSAL, TRX_VOTING, TRX_CONTRACT,
+         TRX_SETDOC, TRX_WITHDRAW in *.
+
+(* case analysis on [t_type t =? c] that records the (dis)equality *)
+Ltac ty_case t c E :=
+  destruct (Z.eqb_spec (t_type t) c) as [E|E].
+
+Lemma stake_validate_withdraw s1 t lim' :
+  t_type t ≠ TRX_STAKING → t_type t ≠ TRX_UNSTAKING → stake_validate s1 t = Ok lim' →
+  lim' = lim s1 ∧ t_amount t = 0 ∧
+  ∃ req r, t_payload t = PWithdraw req ∧ rewards (work s1) !! t_from t = Some r ∧ req ≤ r_cumulated r.
+Proof.
+  intros N2 N3 H. unfold stake_validate in H.
+  apply Z.eqb_neq in N2, N3. rewrite N2, N3 in H.
+  destruct (t_amount t =? 0) eqn:Ea; [|discriminate]. cbn [negb] in H.
+  destruct (t_payload t) as [| | req | | | |] eqn:Ep; try discriminate.
+  destruct (rewards (work s1) !! t_from t) as [r|] eqn:Er; [|discriminate].
+  destruct (r_cumulated r <? req) eqn:Ec; [discriminate|].
+  injection H as <-. apply Z.eqb_eq in Ea. apply Z.ltb_ge in Ec.
+  split; [reflexivity|]. split; [exact Ea|]. exists req, r. repeat split; assumption.
+Qed.
+
+(* only staking and unstaking can hand back a changed limiter *)
+Lemma validated_lim s1 recv t lim' :
+  validated s1 recv t = Ok lim' → t_type t ≠ TRX_STAKING → t_type t ≠ TRX_UNSTAKING → lim' = lim s1.
+Proof.
+  unfold validated. intros H N2 N3.
+  destruct ((t_type t =? TRX_PROPOSAL) || (t_type t =? TRX_VOTING)).
+  { destruct (gov_validate s1 t); [discriminate|]. injection H as <-. reflexivity. }
+  destruct ((t_type t =? TRX_TRANSFER) || (t_type t =? TRX_SETDOC)).
+  { destruct (acct_validate t); [discriminate|]. injection H as <-. reflexivity. }
+  destruct ((t_type t =? TRX_STAKING) || (t_type t =? TRX_UNSTAKING) || (t_type t =? TRX_WITHDRAW)).
+  { apply stake_validate_withdraw in H; tauto. }
+  destruct (t_type t =? TRX_CONTRACT); [|discriminate].
+  destruct (evm_validate recv t); [discriminate|]. injection H as <-. reflexivity.
+Qed.
+
+(* for the three staking types, [validated] is [stake_validate] *)
+Lemma validated_stake s1 recv t :
+  t_type t = TRX_STAKING ∨ t_type t = TRX_UNSTAKING ∨ t_type t = TRX_WITHDRAW →
+  validated s1 recv t = stake_validate s1 t.
+Proof.
+  unfold validated. intros [E|[E|E]]; rewrite E; reflexivity.
+Qed.
+
+(* the seven transaction types that can reach the native execution path *)
+Definition native_type (t : tx) : Prop :=
+  t_type t = TRX_TRANSFER ∨ t_type t = TRX_STAKING ∨ t_type t = TRX_UNSTAKING ∨ t_type t = TRX_PROPOSAL ∨
+  t_type t = TRX_VOTING ∨ t_type t = TRX_SETDOC ∨ t_type t = TRX_WITHDRAW.
+
+(* the type of a validated transaction *)
+Lemma validated_type s1 recv t lim' :
+  validated s1 recv t = Ok lim' →
+  t_type t = TRX_TRANSFER ∨ t_type t = TRX_STAKING ∨ t_type t = TRX_UNSTAKING ∨ t_type t = TRX_PROPOSAL ∨
+  t_type t = TRX_VOTING ∨ t_type t = TRX_CONTRACT ∨ t_type t = TRX_SETDOC ∨ t_type t = TRX_WITHDRAW.
+Proof.
+  unfold validated. intros H.
+  ty_case t TRX_PROPOSAL E4; [tauto|]. ty_case t TRX_VOTING E5; [tauto|].
+  ty_case t TRX_TRANSFER E1; [tauto|]. ty_case t TRX_SETDOC E7; [tauto|].
+  ty_case t TRX_STAKING E2; [tauto|]. ty_case t TRX_UNSTAKING E3; [tauto|].
+  ty_case t TRX_WITHDRAW E8; [tauto|]. ty_case t TRX_CONTRACT E6; [tauto|].
+  cbn in H. discriminate.
+Qed.
+
+(* ------------------------------------------------------------------ execution and the sender account *)
+Section exec_sender.
+  Variables (t : tx) (sender : account).
+  Hypothesis HA : 0 ≤ t_amount t < two255.
+  Hypothesis HF : 0 ≤ fee_of t < two255.
+  Hypothesis HB : fee_of t + t_amount t ≤ a_bal sender < two256.
+
+  Lemma acct_execute_sender l l' :
+    accts l !! t_from t = Some sender → acct_execute l t = Ok l' →
+    ∃ snd', accts l' !! t_from t = Some snd' ∧ fee_of t ≤ a_bal snd'.
+  Proof.
+    pose proof two256_double as H2.
+    intros Hs H. unfold acct_execute in H. rewrite Hs in H.
+    destruct (accts l !! t_to t) as [receiver|] eqn:Er; [|discriminate].
+    destruct (t_type t =? TRX_TRANSFER).
+    - unfold sub_balance in H.
+      destruct (sign256 (t_amount t) <? 0); [discriminate|].
+      destruct (a_bal sender <? t_amount t); [discriminate|].
+      destruct (t_from t =? t_to t)%N eqn:Eft.
+      + apply N.eqb_eq in Eft. unfold add_balance in H. cbn [a_bal a_nonce a_code a_name a_doc] in H.
+        destruct (sign256 (t_amount t) <? 0); [discriminate|]. injection H as <-.
+        eexists. split; [rewrite <- Eft; cbn; apply lookup_insert|]. cbn.
+        rewrite sub256_small by lia. rewrite add256_small by lia. lia.
+      + apply N.eqb_neq in Eft. unfold add_balance in H.
+        destruct (sign256 (t_amount t) <? 0); [discriminate|]. injection H as <-.
+        eexists. split; [cbn; rewrite lookup_insert_ne by congruence; apply lookup_insert|]. cbn.
+        rewrite sub256_small by lia. lia.
+    - destruct (t_payload t); try discriminate. injection H as <-.
+      eexists. split; [cbn; apply lookup_insert|]. cbn. lia.
+  Qed.
+
+  Lemma gov_execute_accts s l l' : gov_execute s l t = Ok l' → accts l' = accts l.
+  Proof.
+    unfold gov_execute. intros H. destruct (t_type t =? TRX_PROPOSAL).
+    - destruct (t_payload t); try discriminate. injection H as <-. reflexivity.
+    - destruct (t_payload t) as [| | | |ph choice| |]; try discriminate.
+      destruct (props l !! ph) as [p|]; [|discriminate].
+      destruct (prop_vote p (t_from t) choice); [|discriminate]. injection H as <-. reflexivity.
+  Qed.
+
+  Lemma stake_execute_sender s l l' :
+    accts l !! t_from t = Some sender →
+    (∀ req, t_type t = TRX_WITHDRAW → t_payload t = PWithdraw req → 0 ≤ req ∧ a_bal sender + req < two256) →
+    t_type t = TRX_STAKING ∨ t_type t = TRX_UNSTAKING ∨ t_type t = TRX_WITHDRAW →
+    stake_execute s l t = Ok l' →
+    ∃ snd', accts l' !! t_from t = Some snd' ∧ fee_of t ≤ a_bal snd'.
+  Proof.
+    intros Hs Hw Hty H. unfold stake_execute in H.
+    ty_case t TRX_STAKING E2.
+    { destruct (match dels l !! t_to t with Some d => Some d | None =>
+                  if (t_from t =? t_to t)%N then Some (new_delegatee (t_from t)) else None end) as [d|];
+        [|discriminate].
+      rewrite Hs in H. unfold sub_balance in H.
+      destruct (sign256 (t_amount t) <? 0); [discriminate|].
+      destruct (a_bal sender <? t_amount t); [discriminate|]. injection H as <-.
+      eexists. split; [cbn; apply lookup_insert|]. cbn. rewrite sub256_small by lia. lia. }
+    ty_case t TRX_UNSTAKING E3.
+    { destruct (dels l !! t_to t) as [d|]; [|discriminate].
+      destruct (t_payload t) as [|hs lo| | | | |]; try discriminate.
+      destruct (find_stake hs (d_stakes d)) as [s0|]; [|discriminate].
+      destruct (negb (s_from s0 =? t_from t)%N); [discriminate|].
+      destruct (if d_self (del_stake d hs) =? 0 then _ else _) as [d2 fr2].
+      exists sender. split; [|lia].
+      destruct (d_total d2 =? 0); injection H as <-; exact Hs. }
+    destruct (t_payload t) as [| |req| | | |] eqn:Ep; try discriminate.
+    destruct (rewards l !! t_from t) as [r|]; [|discriminate].
+    destruct (r_height r >? b_height (bctx s)); [discriminate|].
+    unfold acct_reward in H. cbn [accts set_rewards] in H. rewrite Hs in H. cbn [mbind option_bind] in H.
+    unfold add_balance in H. destruct (sign256 req <? 0); [discriminate|].
+    cbn [mbind option_bind] in H. injection H as <-.
+    assert (E8 : t_type t = TRX_WITHDRAW) by tauto.
+    destruct (Hw req E8 eq_refl) as [Hr0 Hr1].
+    eexists. split; [cbn; apply lookup_insert|]. cbn. rewrite add256_small by lia. lia.
+  Qed.
+
+  Lemma exec_native_sender s2 l' :
+    accts (work s2) !! t_from t = Some sender →
+    (∀ req, t_type t = TRX_WITHDRAW → t_payload t = PWithdraw req → 0 ≤ req ∧ a_bal sender + req < two256) →
+    native_type t →
+    exec_native s2 t = Ok l' →
+    ∃ snd', accts l' !! t_from t = Some snd' ∧ fee_of t ≤ a_bal snd'.
+  Proof.
+    intros Hs Hw Hty H. unfold exec_native in H.
+    destruct ((t_type t =? TRX_PROPOSAL) || (t_type t =? TRX_VOTING)) eqn:Eg.
+    { apply gov_execute_accts in H. exists sender. rewrite H. split; [exact Hs|lia]. }
+    destruct ((t_type t =? TRX_TRANSFER) || (t_type t =? TRX_SETDOC)) eqn:Ea.
+    { eapply acct_execute_sender; eassumption. }
+    eapply stake_execute_sender; try eassumption.
+    apply orb_false_iff in Eg as [Eg1 Eg2]. apply orb_false_iff in Ea as [Ea1 Ea2].
+    apply Z.eqb_neq in Eg1, Eg2, Ea1, Ea2. unfold native_type in Hty. tauto.
+  Qed.
+
+  (* the fee debit of postRunTrx succeeds *)
+  Lemma post_native_ok price s2 l' :
+    accts (work s2) !! t_from t = Some sender →
+    (∀ req, t_type t = TRX_WITHDRAW → t_payload t = PWithdraw req → 0 ≤ req ∧ a_bal sender + req < two256) →
+    native_type t →
+    exec_native s2 t = Ok l' →
+    ∃ s', post_native price s2 t l' = (s', Ok (t_gas t)).
+  Proof.
+    intros Hs Hw Hty H. destruct (exec_native_sender _ _ Hs Hw Hty H) as (snd' & Hl & Hb).
+    unfold post_native. rewrite Hl. unfold sub_balance.
+    assert (Hsg : (sign256 (fee_of t) <? 0) = false) by (apply sign256_nonneg; lia).
+    rewrite Hsg. assert (Hlt : (a_bal snd' <? fee_of t) = false) by (apply Z.ltb_ge; lia).
+    rewrite Hlt. eexists. reflexivity.
+  Qed.
+End exec_sender.
+
+(* ------------------------------------------------------------------ validated staking / unstaking cannot fail in execution *)
+(* StakeCtrler.ValidateTrx may have changed the limiter; what it checked is exactly what
+   exeStaking / exeUnstaking re-check, so no error can follow the change *)
+Lemma staking_validated_exec_ok s1 t lim' sender :
+  t_type t = TRX_STAKING →
+  stake_validate s1 t = Ok lim' →
+  accts (work s1) !! t_from t = Some sender →
+  t_amount t < two255 → t_amount t ≤ a_bal sender →
+  ∃ l', stake_execute (with_lim s1 lim') (work s1) t = Ok l'.
+Proof.
+  intros Ety Hv Hs Ha Hb.
+  assert (Hsg : (sign256 (t_amount t) <? 0) = false) by (apply sign256_nonneg; exact Ha).
+  assert (Hlt : (a_bal sender <? t_amount t) = false) by (apply Z.ltb_ge; exact Hb).
+  unfold stake_execute. rewrite Ety. cbn [Z.eqb TRX_STAKING Pos.eqb].
+  rewrite Hs. unfold sub_balance. rewrite Hsg, Hlt.
+  destruct (dels (work s1) !! t_to t) as [d|] eqn:Ed; [eexists; reflexivity|].
+  destruct (t_from t =? t_to t)%N eqn:Eft; [eexists; reflexivity|].
+  (* a delegation to a missing delegatee was refused by validation *)
+  exfalso. unfold stake_validate in Hv. rewrite Ety in Hv. cbn [Z.eqb TRX_STAKING Pos.eqb] in Hv.
+  destruct (t_amount t / amountPerPower <=? 0); [discriminate|].
+  destruct (negb (t_amount t mod amountPerPower =? 0)); [discriminate|].
+  destruct (amount_to_power (t_amount t)) as [txp|]; [|discriminate].
+  rewrite Eft, Ed in Hv. discriminate.
+Qed.
+
+Lemma unstaking_validated_exec_ok s1 t lim' :
+  t_type t = TRX_UNSTAKING →
+  stake_validate s1 t = Ok lim' →
+  ∃ l', stake_execute (with_lim s1 lim') (work s1) t = Ok l'.
+Proof.
+  intros Ety Hv. unfold stake_validate in Hv. unfold stake_execute.
+  rewrite Ety in *. cbn [Z.eqb TRX_STAKING TRX_UNSTAKING Pos.eqb] in *.
+  destruct (dels (work s1) !! t_to t) as [d|]; [|discriminate].
+  destruct (t_payload t) as [|hs lo| | | | |]; try discriminate.
+  destruct (negb lo); [discriminate|].
+  destruct (find_stake hs (d_stakes d)) as [s0|]; [|discriminate].
+  destruct (negb (s_from s0 =? t_from t)%N); [discriminate|].
+  destruct (if d_self (del_stake d hs) =? 0 then _ else _) as [d2 fr2].
+  destruct (d_total d2 =? 0); eexists; reflexivity.
+Qed.
+
+Lemma validated_native s1 recv t lim' :
+  validated s1 recv t = Ok lim' → t_type t ≠ TRX_CONTRACT → native_type t.
+Proof. intros H N. apply validated_type in H. unfold native_type. tauto. Qed.
+
+(* ------------------------------------------------------------------ C05 *)
+(* the hypotheses, in their minimal form *)
+Definition sender_bal_ok (s : state) (t : tx) : Prop :=
+  ∀ x, accts (work s) !! t_from t = Some x → a_bal x < two256.
+(* paying out the whole reward cannot wrap the balance *)
+Definition reward_headroom (l : ledgers) (a : addr) : Prop :=
+  ∀ x r, accts l !! a = Some x → rewards l !! a = Some r → a_bal x + r_cumulated r < two256.
+(* the withdraw request is a uint256 *)
+Definition payload_wf (t : tx) : Prop :=
+  match t_payload t with PWithdraw req => 0 ≤ req < two256 | _ => True end.
+Definition withdraw_ok (s : state) (t : tx) : Prop :=
+  t_type t = TRX_WITHDRAW → payload_wf t ∧ reward_headroom (work s) (t_from t).
+
+Section validated_facts.
+  Variables (s : state) (t : tx) (sender : account) (lim' : limiter).
+  Hypothesis Hamt : 0 ≤ t_amount t.
+  Hypothesis Hgas : 0 ≤ t_gas t.
+  Hypothesis Hprice : 0 ≤ g_gasPrice (gparams s) < 2 ^ 192.
+  Hypothesis Hbal : sender_bal_ok s t.
+  Hypothesis Hwd : withdraw_ok s t.
+  Hypothesis Hs : accts (work s) !! t_from t = Some sender.
+  Hypothesis Hv0 : common_validation0 (gparams s) t = None.
+  Hypothesis Hv1 : common_validation1 sender t = None.
+  Hypothesis Hv : validated (pre s t) (receiver_of s t) t = Ok lim'.
+
+  Lemma vf_amount : 0 ≤ t_amount t < two255.
+  Proof. apply cv0_none in Hv0. tauto. Qed.
+
+  Lemma vf_fee : 0 ≤ fee_of t < two255.
+  Proof.
+    apply cv0_none in Hv0 as (_ & _ & _ & Hg & _ & Hp & _).
+    pose proof two256_double. pose proof two255_pos.
+    assert (Hb : 0 ≤ t_price t * t_gas t < two255) by (apply fee_bound; lia).
+    unfold fee_of. rewrite mul256_small by lia. exact Hb.
+  Qed.
+
+  Lemma vf_bal : fee_of t + t_amount t ≤ a_bal sender < two256.
+  Proof.
+    pose proof vf_amount. pose proof vf_fee. pose proof two256_double.
+    apply cv1_none in Hv1 as [Hb _]. rewrite add256_small in Hb by lia.
+    split; [exact Hb|]. apply Hbal. exact Hs.
+  Qed.
+
+  Lemma vf_withdraw req :
+    t_type t = TRX_WITHDRAW → t_payload t = PWithdraw req → 0 ≤ req ∧ a_bal sender + req < two256.
+  Proof.
+    intros E8 Ep. destruct (Hwd E8) as [Hpw Hh].
+    rewrite (validated_stake _ _ _ (or_intror (or_intror E8))) in Hv.
+    apply stake_validate_withdraw in Hv as (_ & _ & req' & r & Ep' & Hr & Hle);
+      [|rewrite E8; discriminate|rewrite E8; discriminate].
+    rewrite Ep in Ep'. injection Ep' as <-.
+    unfold payload_wf in Hpw. rewrite Ep in Hpw.
+    unfold pre in Hr. cbn [work with_work] in Hr. rewrite find_or_new_rewards in Hr.
+    specialize (Hh _ _ Hs Hr). lia.
+  Qed.
+
+  (* once validation has passed, the native path cannot fail in postRunTrx *)
+  Lemma finish_native_err price s' e :
+    t_type t ≠ TRX_CONTRACT →
+    finish price (with_lim (pre s t) lim') t false = (s', Err e) →
+    s' = with_lim (pre s t) lim' ∧ exec_native (with_lim (pre s t) lim') t = Err e.
+  Proof.
+    intros Hn H. unfold finish in H.
+    destruct (exec_native (with_lim (pre s t) lim') t) as [l'|e'|p] eqn:Ex.
+    - exfalso.
+      destruct (post_native_ok t sender vf_amount vf_fee vf_bal price (with_lim (pre s t) lim') l')
+        as [s'' Hp]; [apply pre_sender; exact Hs|exact vf_withdraw|eapply validated_native; eassumption|exact Ex|].
+      rewrite Hp in H. discriminate.
+    - injection H as <- <-. split; reflexivity.
+    - discriminate.
+  Qed.
+
+  (* ... nor in execution when the limiter has been changed *)
+  Lemma validated_exec_lim e :
+    exec_native (with_lim (pre s t) lim') t = Err e → lim' = lim (pre s t).
+  Proof.
+    intros Hx.
+    ty_case t TRX_STAKING E2.
+    { exfalso. rewrite (validated_stake _ _ _ (or_introl E2)) in Hv.
+      pose proof vf_amount. pose proof vf_fee. pose proof vf_bal.
+      destruct (staking_validated_exec_ok _ _ _ sender E2 Hv) as [l' Hl];
+        [apply pre_sender; exact Hs|lia|lia|].
+      unfold exec_native in Hx. rewrite E2 in Hx. cbn in Hx. cbn in Hl. rewrite Hl in Hx. discriminate. }
+    ty_case t TRX_UNSTAKING E3.
+    { exfalso. rewrite (validated_stake _ _ _ (or_intror (or_introl E3))) in Hv.
+      destruct (unstaking_validated_exec_ok _ _ _ E3 Hv) as [l' Hl].
+      unfold exec_native in Hx. rewrite E3 in Hx. cbn in Hx. cbn in Hl. rewrite Hl in Hx. discriminate. }
+    eapply validated_lim; eassumption.
+  Qed.
+End validated_facts.
+
+(* ------------------------------------------------------------------ the EVM path *)
+(* a failed EVM execution returns before anything is written *)
+Lemma finish_evm_not_ok price s2 t s' r :
+  finish price s2 t true = (s', r) → (∀ g, r ≠ Ok g) → s' = s2.
+Proof.
+  unfold finish. intros H Hr.
+  destruct (evm_execute (work s2) t) as [[l' gas]|e'|p].
+  - injection H as <- <-. exfalso. eapply Hr. reflexivity.
+  - injection H as <- _. reflexivity.
+  - injection H as <- _. reflexivity.
+Qed.
+
+Lemma evm_execute_no_panic l t p : evm_execute l t ≠ Panic p.
+Proof.
+  unfold evm_execute. destruct (t_evm t) as [e|]; [|discriminate].
+  destruct (negb (e_ok e)); discriminate.
+Qed.
+
+Lemma evm_path_type s t :
+  evm_path s t = true → t_type t = TRX_CONTRACT ∨ t_type t = TRX_TRANSFER.
+Proof.
+  unfold evm_path. intros H. apply orb_true_iff in H as [H|H].
+  - left. apply Z.eqb_eq. exact H.
+  - right. apply andb_true_iff in H as [H _]. apply Z.eqb_eq. exact H.
+Qed.
+
+Lemma evm_path_false_type s t : evm_path s t = false → t_type t ≠ TRX_CONTRACT.
+Proof.
+  unfold evm_path. intros H. apply orb_false_iff in H as [H _]. apply Z.eqb_neq. exact H.
+Qed.
+
+Lemma evm_path_lim s t recv lim' :
+  evm_path s t = true → validated (pre s t) recv t = Ok lim' → lim' = lim (pre s t).
+Proof.
+  intros Hp Hv. apply evm_path_type in Hp.
+  eapply validated_lim; [exact Hv| |]; destruct Hp as [E|E]; rewrite E; discriminate.
+Qed.
+
+(* ------------------------------------------------------------------ C05, main statement *)
+(* Intended statement:
+     deliver s t = (s', Err e) → same_obs (work s) (work s') ∧ same_ctl s s'
+   It needs the five hypotheses below; each is necessary (see the refutations further down). *)
+Theorem deliver_fail_no_effect s t s' e :
+  0 ≤ t_amount t →                         (* tx_wf *)
+  0 ≤ t_gas t →                            (* tx_wf *)
+  0 ≤ g_gasPrice (gparams s) < 2 ^ 192 →   (* params_ok *)
+  sender_bal_ok s t →                      (* ranges_ok *)
+  withdraw_ok s t →
+  deliver s t = (s', Err e) →
+  same_obs (work s) (work s') ∧ same_ctl s s'.
+Proof.
+  intros Hamt Hgas Hprice Hbal Hwd H. rewrite deliver_eq in H.
+  destruct (accts (work s) !! t_from t) as [sender|] eqn:Hs.
+  2:{ injection H as <- _. split; [apply same_obs_refl|apply same_ctl_refl]. }
+  cbv zeta in H.
+  destruct (common_validation0 (gparams s) t) as [e0|] eqn:Hv0.
+  { injection H as <- _. split; [apply pre_obs|apply pre_ctl]. }
+  destruct (common_validation1 sender t) as [e1|] eqn:Hv1.
+  { injection H as <- _. split; [apply pre_obs|apply pre_ctl]. }
+  destruct (validated (pre s t) (receiver_of s t) t) as [lim'|ev|pv] eqn:Hv.
+  2:{ injection H as <- _. split; [apply pre_obs|apply pre_ctl]. }
+  2:{ discriminate. }
+  destruct (evm_path s t) eqn:Hp.
+  - (* EVM path: nothing was written, and the limiter is the old one *)
+    apply finish_evm_not_ok in H; [|discriminate]. subst s'.
+    rewrite (evm_path_lim _ _ _ _ Hp Hv). split; [apply pre_obs|apply pre_lim_ctl].
+  - (* native path *)
+    apply evm_path_false_type in Hp.
+    destruct (finish_native_err s t sender lim' Hamt Hgas Hprice Hbal Hwd Hs Hv0 Hv1 Hv _ _ _ Hp H)
+      as [-> Hx].
+    rewrite (validated_exec_lim s t sender lim' Hamt Hgas Hprice Hbal Hs Hv0 Hv1 Hv _ Hx).
+    split; [apply pre_obs|apply pre_lim_ctl].
+Qed.
+Print Assumptions deliver_fail_no_effect.
+
+(* the same with the shared vocabulary of SpecProps *)
+Corollary deliver_fail_no_effect_wf s t s' e :
+  tx_wf t → payload_wf t → params_ok (gparams s) → ranges_ok (work s) →
+  reward_headroom (work s) (t_from t) →
+  deliver s t = (s', Err e) →
+  same_obs (work s) (work s') ∧ same_ctl s s'.
+Proof.
+  intros (Ha & _ & Hg & _) Hpw (Hp & _) (Hr & _) Hh H.
+  eapply deliver_fail_no_effect; try eassumption; try lia.
+  - intros x Hx. apply Hr in Hx. lia.
+  - intros _. split; assumption.
+Qed.
+Print Assumptions deliver_fail_no_effect_wf.
+
+(* "Later transactions in the same block observe the unchanged state": what the next delivery
+   sees differs from what it would have seen only in the tx counter and possibly an empty
+   receiver account, both outside same_obs / same_ctl. *)
+
+(* ------------------------------------------------------------------ C05 for panics (secondary) *)
+Lemma exec_native_panic_type s2 t p :
+  exec_native s2 t = Panic p → t_type t ≠ TRX_STAKING ∧ t_type t ≠ TRX_UNSTAKING.
+Proof.
+  unfold exec_native. intros H.
+  ty_case t TRX_STAKING E2.
+  { exfalso. rewrite E2 in H. cbn [Z.eqb orb TRX_STAKING TRX_PROPOSAL TRX_VOTING TRX_TRANSFER TRX_SETDOC Pos.eqb] in H.
+    unfold stake_execute in H. rewrite E2 in H. cbn [Z.eqb TRX_STAKING Pos.eqb] in H.
+    destruct (match dels (work s2) !! t_to t with Some d => Some d | None => _ end); [|discriminate].
+    destruct (accts (work s2) !! t_from t) as [x|]; [|discriminate].
+    destruct (sub_balance x (t_amount t)); discriminate. }
+  ty_case t TRX_UNSTAKING E3.
+  { exfalso. rewrite E3 in H. cbn [Z.eqb orb TRX_UNSTAKING TRX_PROPOSAL TRX_VOTING TRX_TRANSFER TRX_SETDOC Pos.eqb] in H.
+    unfold stake_execute in H. rewrite E3 in H. cbn [Z.eqb TRX_STAKING TRX_UNSTAKING Pos.eqb] in H.
+    destruct (dels (work s2) !! t_to t) as [d|]; [|discriminate].
+    destruct (t_payload t) as [|hs lo| | | | |]; try discriminate.
+    destruct (find_stake hs (d_stakes d)) as [s0|]; [|discriminate].
+    destruct (negb (s_from s0 =? t_from t)%N); [discriminate|].
+    destruct (if d_self (del_stake d hs) =? 0 then _ else _) as [d2 fr2].
+    destruct (d_total d2 =? 0); discriminate. }
+  split; assumption.
+Qed.
+
+(* a panicking delivery (the node aborts) has written nothing either; no hypotheses *)
+Theorem deliver_panic_no_effect s t s' p :
+  deliver s t = (s', Panic p) → same_obs (work s) (work s') ∧ same_ctl s s'.
+Proof.
+  intros H. rewrite deliver_eq in H.
+  destruct (accts (work s) !! t_from t) as [sender|] eqn:Hs; [|discriminate].
+  cbv zeta in H.
+  destruct (common_validation0 (gparams s) t) as [e0|]; [discriminate|].
+  destruct (common_validation1 sender t) as [e1|]; [discriminate|].
+  destruct (validated (pre s t) (receiver_of s t) t) as [lim'|ev|pv] eqn:Hv.
+  2:{ discriminate. }
+  2:{ injection H as <- _. split; [apply pre_obs|apply pre_ctl]. }
+  destruct (evm_path s t) eqn:Hp.
+  - apply finish_evm_not_ok in H; [|discriminate]. subst s'.
+    rewrite (evm_path_lim _ _ _ _ Hp Hv). split; [apply pre_obs|apply pre_lim_ctl].
+  - unfold finish in H.
+    destruct (exec_native (with_lim (pre s t) lim') t) as [l'|e'|p'] eqn:Hx.
+    + exfalso. unfold post_native in H.
+      destruct (accts l' !! t_from t) as [x|]; [|discriminate].
+      destruct (sub_balance x (fee_of t)); discriminate.
+    + discriminate.
+    + injection H as <- _. apply exec_native_panic_type in Hx as [N2 N3].
+      rewrite (validated_lim _ _ _ _ Hv N2 N3). split; [apply pre_obs|apply pre_lim_ctl].
+Qed.
+Print Assumptions deliver_panic_no_effect.
+
+(* ------------------------------------------------------------------ concrete states *)
+Definition pr0 (price : Z) : params := {|
+  g_version := 1; g_maxValidatorCnt := 21; g_minValidatorStake := 10 * amountPerPower;
+  g_minDelegatorStake := 0; g_rewardPerPower := 1000; g_lazyRewardBlocks := 10; g_lazyApplyingBlocks := 10;
+  g_gasPrice := price; g_minTrxGas := 10; g_maxTrxGas := 1000000; g_maxBlockGas := 10000000;
+  g_minVotingPeriodBlocks := 1; g_maxVotingPeriodBlocks := 100; g_minSelfStakeRatio := 50;
+  g_maxUpdatableStakeRatio := 30; g_maxIndividualStakeRatio := 100; g_slashRatio := 50;
+  g_signedBlocksWindow := 100; g_minSignedBlocks := 10 |}.
+
+Ltac zc := vm_compute; repeat split; try reflexivity; try discriminate.
+
+Lemma pr0_ok : params_ok (pr0 10).
+Proof. zc. Qed.
+
+(* a plain transaction *)
+Definition mk_tx (ty : Z) (from to : addr) (amount price gas nonce : Z) (pl : payload) : tx := {|
+  t_type := ty; t_from := from; t_to := to; t_from_ok := true; t_to_ok := true; t_amount := amount;
+  t_price := price; t_gas := gas; t_nonce := nonce; t_payload := pl; t_hash := 77%N; t_sigok := true;
+  t_evm := None |}.
+
+(* genesis: two holders, one validator; then the first block is begun *)
+Definition gen0 : genesis := {|
+  gen_params := pr0 10;
+  gen_holders := [(1%N, 1000 * amountPerPower); (2%N, 500 * amountPerPower)];
+  gen_validators := [(1%N, 100)] |}.
+Definition st0 : state :=
+  (begin_block (init_chain gen0) {| h_height := 1; h_proposer := Some 1%N; h_votes := []; h_evidence := [] |}).1.
+
+(* three failing deliveries in st0: a replayed nonce, a delegation to a missing delegatee, a
+   transfer that cannot pay amount + fee *)
+Definition tx_bad_nonce := mk_tx TRX_TRANSFER 1%N 3%N 5 10 100 7 PNone.
+Definition tx_bad_deleg := mk_tx TRX_STAKING 2%N 3%N amountPerPower 10 100 0 PNone.
+Definition tx_bad_fund := mk_tx TRX_TRANSFER 2%N 1%N (500 * amountPerPower) 10 100 0 PNone.
+
+Lemma st0_hyps t :
+  t_from t = 1%N ∨ t_from t = 2%N → t_type t ≠ TRX_WITHDRAW →
+  0 ≤ g_gasPrice (gparams st0) < 2 ^ 192 ∧ sender_bal_ok st0 t ∧ withdraw_ok st0 t.
+Proof.
+  intros Hf Hty. split; [zc|]. split.
+  - intros x Hx. destruct Hf as [Hf|Hf]; rewrite Hf in Hx; vm_compute in Hx; injection Hx as <-; reflexivity.
+  - intros E. contradiction.
+Qed.
+
+Example deliver_fail_no_effect_ex :
+  (deliver st0 tx_bad_nonce).2 = Err E_NONCE ∧
+  (deliver st0 tx_bad_deleg).2 = Err E_NODELEGATEE ∧
+  (deliver st0 tx_bad_fund).2 = Err E_FUND ∧
+  ∀ t, t ∈ [tx_bad_nonce; tx_bad_deleg; tx_bad_fund] →
+       same_obs (work st0) (work (deliver st0 t).1) ∧ same_ctl st0 (deliver st0 t).1.
+Proof.
+  split; [vm_compute; reflexivity|]. split; [vm_compute; reflexivity|]. split; [vm_compute; reflexivity|].
+  intros t Ht.
+  assert (He : ∃ e, deliver st0 t = ((deliver st0 t).1, Err e)).
+  { apply elem_of_cons in Ht as [->|Ht]; [eexists; vm_compute; reflexivity|].
+    apply elem_of_cons in Ht as [->|Ht]; [eexists; vm_compute; reflexivity|].
+    apply elem_of_list_singleton in Ht as ->. eexists; vm_compute; reflexivity. }
+  destruct He as [e He].
+  assert (Hh : (t_from t = 1%N ∨ t_from t = 2%N) ∧ t_type t ≠ TRX_WITHDRAW ∧ 0 ≤ t_amount t ∧ 0 ≤ t_gas t).
+  { apply elem_of_cons in Ht as [->|Ht]; [zc; auto|].
+    apply elem_of_cons in Ht as [->|Ht]; [zc; auto|].
+    apply elem_of_list_singleton in Ht as ->. zc; auto. }
+  destruct Hh as (Hf & Hty & Ha & Hg). destruct (st0_hyps t Hf Hty) as (Hp & Hb & Hw).
+  exact (deliver_fail_no_effect _ _ _ _ Ha Hg Hp Hb Hw He).
+Qed.
+
+(* ------------------------------------------------------------------ every hypothesis is needed *)
+(* a one-account state with a given gas price, balance and reward ledger *)
+Definition mk_state (price bal : Z) (rw : gmap addr reward) : state := {|
+  committed := [];
+  work := {| accts := {[ 1%N := {| a_nonce := 0; a_bal := bal; a_code := false; a_name := 0%N; a_doc := 0%N |} ]};
+             dels := ∅; frozen := ∅; rewards := rw; props := ∅; fprops := ∅; lparams := pr0 price |};
+  gparams := pr0 price; newparams := None; alldels := []; lastvals := []; lim := limiter_reset [] (pr0 price);
+  bctx := {| b_height := 1; b_proposer := None; b_feesum := 0; b_txs := 0 |}; last_height := 0 |}.
+
+Lemma mk_state_ranges price bal rw :
+  0 ≤ bal < two256 → (∀ a r, rw !! a = Some r → 0 ≤ r_cumulated r < two256) →
+  ranges_ok (work (mk_state price bal rw)).
+Proof.
+  intros Hb Hr. pose proof two64_pos. split; [|split].
+  - intros a x Hx. cbn in Hx. apply lookup_singleton_Some in Hx as [_ <-]. cbn. lia.
+  - intros s Hs. unfold bonded_stakes, frozen_stakes in Hs. cbn in Hs.
+    rewrite !map_to_list_empty in Hs. cbn in Hs. apply elem_of_nil in Hs. contradiction.
+  - exact Hr.
+Qed.
+
+Ltac not_same_obs a :=
+  let H := fresh in intros [H _]; specialize (H a); vm_compute in H; discriminate.
+
+(* (a) gas price beyond 2^192: the fee has bit 255 set, validation lets it through, the transfer
+   is carried out and the fee debit is then refused (SubBalance rejects "negative" amounts) *)
+Theorem deliver_fail_no_effect_refuted_price :
+  ∃ s t s' e, tx_wf t ∧ payload_wf t ∧ ranges_ok (work s) ∧ reward_headroom (work s) (t_from t) ∧
+    0 ≤ g_gasPrice (gparams s) < two255 ∧
+    deliver s t = (s', Err e) ∧ ¬ same_obs (work s) (work s').
+Proof.
+  pose (s := mk_state (2 ^ 254) (2 ^ 255 + 1) ∅).
+  pose (t := mk_tx TRX_TRANSFER 1%N 2%N 1 (2 ^ 254) 2 0 PNone).
+  exists s, t, (deliver s t).1, E_FUND.
+  split; [zc|]. split; [exact I|]. split; [apply mk_state_ranges; [zc|intros a r Hr; rewrite lookup_empty in Hr; discriminate]|].
+  split; [intros x r _ Hr; cbn in Hr; rewrite lookup_empty in Hr; discriminate|].
+  split; [zc|]. split; [vm_compute; reflexivity|]. not_same_obs 1%N.
+Qed.
+
+(* (b) no head-room for the reward: the pay-out wraps the balance below the fee *)
+Theorem deliver_fail_no_effect_refuted_headroom :
+  ∃ s t s' e, tx_wf t ∧ payload_wf t ∧ params_ok (gparams s) ∧ ranges_ok (work s) ∧
+    deliver s t = (s', Err e) ∧ ¬ same_obs (work s) (work s').
+Proof.
+  pose (rw := {| r_issued := 5; r_withdrawn := 0; r_slashed := 0; r_cumulated := 5; r_height := 0 |}).
+  pose (s := mk_state 10 (2 ^ 256 - 1) {[ 1%N := rw ]}).
+  pose (t := mk_tx TRX_WITHDRAW 1%N 0%N 0 10 10 0 (PWithdraw 5)).
+  exists s, t, (deliver s t).1, E_FUND.
+  split; [zc|]. split; [zc|]. split; [exact pr0_ok|].
+  split; [apply mk_state_ranges; [zc|intros a r Hr; apply lookup_singleton_Some in Hr as [_ <-]; zc]|].
+  split; [vm_compute; reflexivity|]. not_same_obs 1%N.
+Qed.
+
+(* (c)-(e): values outside the Go types (a balance of 2^256 or more, a negative amount, a negative
+   gas) make the model's modular arithmetic misbehave in the same way; they show that the three
+   range hypotheses cannot simply be dropped from the statement about the model *)
+Ltac sender_ok := let x := fresh in let H := fresh in
+  intros x H; vm_compute in H; injection H as <-; reflexivity.
+Ltac not_withdraw := let E := fresh in intros E; vm_compute in E; discriminate.
+
+Theorem deliver_fail_no_effect_refuted_balance :
+  ∃ s t s' e, 0 ≤ t_amount t ∧ 0 ≤ t_gas t ∧ 0 ≤ g_gasPrice (gparams s) < 2 ^ 192 ∧ withdraw_ok s t ∧
+    deliver s t = (s', Err e) ∧ ¬ same_obs (work s) (work s').
+Proof.
+  pose (s := mk_state 10 (2 ^ 256 + 5) ∅).
+  pose (t := mk_tx TRX_TRANSFER 1%N 2%N 5 10 10 0 PNone).
+  exists s, t, (deliver s t).1, E_FUND.
+  split; [zc|]. split; [zc|]. split; [zc|]. split; [not_withdraw|].
+  split; [vm_compute; reflexivity|]. not_same_obs 1%N.
+Qed.
+
+Theorem deliver_fail_no_effect_refuted_amount :
+  ∃ s t s' e, 0 ≤ t_gas t ∧ 0 ≤ g_gasPrice (gparams s) < 2 ^ 192 ∧ sender_bal_ok s t ∧ withdraw_ok s t ∧
+    deliver s t = (s', Err e) ∧ ¬ same_obs (work s) (work s').
+Proof.
+  pose (s := mk_state 10 99 ∅).
+  pose (t := mk_tx TRX_SETDOC 1%N 2%N (-1) 10 10 0 (PSetDoc 5%N 6%N 1 1)).
+  exists s, t, (deliver s t).1, E_FUND.
+  split; [zc|]. split; [zc|]. split; [sender_ok|]. split; [not_withdraw|].
+  split; [vm_compute; reflexivity|]. not_same_obs 1%N.
+Qed.
+
+Theorem deliver_fail_no_effect_refuted_gas :
+  ∃ s t s' e, 0 ≤ t_amount t ∧ 0 ≤ g_gasPrice (gparams s) < 2 ^ 192 ∧ sender_bal_ok s t ∧ withdraw_ok s t ∧
+    deliver s t = (s', Err e) ∧ ¬ same_obs (work s) (work s').
+Proof.
+  pose (s := mk_state 10 1000 ∅).
+  pose (t := mk_tx TRX_TRANSFER 1%N 2%N 10 10 (-1) 0 PNone).
+  exists s, t, (deliver s t).1, E_FUND.
+  split; [zc|]. split; [zc|]. split; [sender_ok|]. split; [not_withdraw|].
+  split; [vm_compute; reflexivity|]. not_same_obs 1%N.
+Qed.
+
+(* What a failed delivery does leave behind (deliberately outside same_obs): the receiver account
+   is created, empty.  With a zero gas price this is visible to a later transaction FROM that
+   address, which is answered "no such account" before and succeeds after. *)
+Example failed_delivery_creates_receiver :
+  ∃ s t1 t2, (deliver s t1).2 = Err E_NONCE ∧ (deliver s t2).2 = Err E_NOACCT ∧
+             (deliver (deliver s t1).1 t2).2 = Ok 0.
+Proof.
+  exists (mk_state 0 100 ∅), (mk_tx TRX_TRANSFER 1%N 9%N 1 0 100 5 PNone),
+         (mk_tx TRX_SETDOC 9%N 9%N 0 0 0 0 (PSetDoc 5%N 6%N 1 1)).
+  repeat split; vm_compute; reflexivity.
+Qed.
+
+Print Assumptions deliver_ok_validated.
+Print Assumptions deliver_fail_no_effect_refuted_price.
+Print Assumptions deliver_fail_no_effect_refuted_headroom.
